@@ -58,6 +58,18 @@ OPEN = OPEN_PARSE + [
      "widening the ids changes the size of every Value and is a maintainer decision; a panic on overflow would not satisfy the property either"),
  dict(_DEFNS, property="C01"),
  dict(_DEFNS, property="C10"),
+ dict(_DEFNS, property="C15"),
+ _kf("C15", "KF-C15-own-default-and-prefixed-declaration-both-removed", "deduplicate_namespaces removes a prefixed declaration that an attribute needs when the same element also declares that namespace as its default namespace (the attribute marks the element's own tracker entry, which is popped before the safety check): the attribute loses its only usable prefix and the tree no longer serialises",
+     "<r xmlns='urn:a'><g xmlns='urn:a' xmlns:q='urn:a' q:k='w'/></r> (or the default declaration anywhere between the prefixed declaration and the attribute); deduplicate_namespaces; to_string fails with MissingPrefix",
+     "src/nameaccess.rs DeduplicateTracker::attribute_name / deduplicate_namespaces (End edge pops before is_safe_to_remove)",
+     "a correct rule has to distinguish prefixed from default bindings per removal candidate: a rewrite of the tracker, not a mechanical repair"),
+ _kf("C15", "KF-C15-declaration-removed-although-descendant-shadows-the-other-prefix", "deduplicate_namespaces removes a declaration for N because another prefix for N is in scope at that element, although a descendant re-declares that other prefix with a different namespace: names below the shadowing element lose their only binding and the tree no longer serialises",
+     "<r xmlns:p='urn:a'><e xmlns='urn:a'><f xmlns:p='urn:b'/></e></r> with e, f in urn:a: xmlns on e is removed, f has no prefix left",
+     "src/nameaccess.rs deduplicate_namespaces (is_namespace_known at the declaring element, shadowing below is not considered)",
+     "needs a look-ahead over the subtree or a conservative rule (only identical prefix+namespace pairs are redundant) that changes documented results"),
+ _kf("C15", "KF-C15-second-pass-after-default-declaration-removed", "deduplicate_namespaces is not idempotent: when the first pass removes a redundant default-namespace declaration, a prefixed declaration further down that was kept only because an attribute 'used' that default entry is removed by a second pass",
+     "<e xmlns:p='urn:a'><f xmlns='urn:a'><g xmlns:q='urn:a' q:k='w'/></f></e>: pass 1 removes xmlns on f, pass 2 removes xmlns:q on g",
+     "src/nameaccess.rs deduplicate_namespaces / DeduplicateTracker", "same rewrite as above; the result of the second pass is still correct, only the idempotence clause fails"),
  {"property": "C04", "class": "KF-C04-unwrap-parentless-element", "status": "open",
   "what": "element_unwrap of an element that has no parent but several children leaves the children as each other's siblings without a parent (parentless nodes with siblings)",
   "witness": "unattached <a x=..>t1<b/>t2<w/></a>; element_unwrap(a); next_sibling(t1) is Some while parent(t1) is None",
